@@ -2,6 +2,7 @@ package db
 
 import (
 	"os"
+	"path/filepath"
 	"errors"
 	"strings"
 
@@ -90,7 +91,7 @@ func verifSymSecret(nver int) *secret {
 
 func verifSymKV(nsec, nver int, saveFailTag string) *kv {
 	k := &kv{
-		path:      "verif.db",
+		path:      verifDBPath(nondetBool("writefile.fail")),
 		secrets:   map[string]*secret{},
 		dekCipher: verifAEAD{key: 7, failTag: saveFailTag},
 		dekRaw:    []byte("wrapped-dek"),
@@ -111,7 +112,13 @@ func verifSecretInv(s *secret) bool {
 	keysOK := mapAll(s.Versions, func(k api.SecretVersion, _ byteString) bool {
 		return and(k >= 1, k <= latest)
 	})
-	return and(keysOK, mapHas(s.Versions, s.ActiveVersion), latest < 0xFFFFFFFF)
+	return and(keysOK, mapHas(s.Versions, s.ActiveVersion))
+}
+
+// verifKVBound is the stated bound of the claim (not part of the invariant):
+// no version counter has reached 2^32-1, where LatestVersion++ would wrap.
+func verifKVBound(k *kv) bool {
+	return mapAll(k.secrets, func(_ string, s *secret) bool { return s.LatestVersion < 0xFFFFFFFF })
 }
 
 func verifKVInv(k *kv) bool {
@@ -145,11 +152,27 @@ var verifDiskWrites int
 // verifAtomicWrite replaces tailscale.com/atomicfile.WriteFile where the file
 // system itself is not the subject (C04 interprets the real one).
 func verifAtomicWrite(filename string, data []byte, perm os.FileMode) error {
-	if nondetBool("writefile.fail") {
+	if verifWriteFails {
+		ghostLog("disk.write.failed")
 		return verifErrInjected
 	}
 	verifDisk = data
 	verifDiskWrites++
 	ghostLog("disk.write")
 	return nil
+}
+
+var verifWriteFails bool
+
+// verifDBPath picks the database path. Natively an injected write failure is
+// realised by a path inside a directory that does not exist.
+func verifDBPath(fail bool) string {
+	verifWriteFails = fail
+	if symbolic() {
+		return "verif.db"
+	}
+	if fail {
+		return filepath.Join(os.Getenv("VERIF_TMP"), "no-such-dir", "verif.db")
+	}
+	return filepath.Join(os.Getenv("VERIF_TMP"), "verif.db")
 }
